@@ -599,6 +599,13 @@ func runCase(t *testing.T, c *Case, rootDir string) (out *caseOut) {
 					p = &parked{Root: root, Func: root, Kind: "unknown", What: "not parked in /repo/block"}
 				}
 				lo.Stuck = p
+				// a collaborator that ignores cancellation (exec_ignores_ctx) delays ONE call by its own latency; a loop
+				// that goes on STARTING calls after the stop request is a different matter and gets its own signature
+				if k := n.exec.startedAfter(p.Call, tStop); p.Ext && k >= 2 {
+					out.fail("loop-keeps-calling-"+p.Call+"-after-stop", fmt.Sprintf("%s started %d further %s calls after the stop request and had not returned %d ms (virtual) after it (parked in %s, %s)", root, k, p.Call, c.DeadlineMs, p.Func, p.Pos))
+					out.loops = append(out.loops, lo)
+					continue
+				}
 				out.fail(stuckSignature(p), fmt.Sprintf("%s had not returned %d ms (virtual) after the stop request: parked in %s [%s] %s %s (%s)", root, c.DeadlineMs, p.Func, p.Kind, p.What, p.Call, p.Pos))
 			}
 			out.loops = append(out.loops, lo)
@@ -1072,7 +1079,11 @@ func TestVerif(t *testing.T) {
 		var loops, key []string
 		maxAfter := int64(0)
 		for _, lo := range o.loops {
-			loops = append(loops, fmt.Sprintf("{| lo_root := %s; lo_at := %s; lo_stuck := %s |}", vgen.Str(lo.Root), dt.ref(lo.At), dt.ref(lo.Stuck)))
+			stuckForCoq := lo.Stuck
+			if stuckForCoq != nil && stuckForCoq.Ext {
+				stuckForCoq = nil // inside an external call: outside the scope of the blockpoints table; the Go oracle alone judges it
+			}
+			loops = append(loops, fmt.Sprintf("{| lo_root := %s; lo_at := %s; lo_stuck := %s |}", vgen.Str(lo.Root), dt.ref(lo.At), dt.ref(stuckForCoq)))
 			a, s := "-", "-"
 			if lo.At != nil {
 				a = lo.At.desc()
